@@ -483,6 +483,8 @@ pub(crate) struct PortView {
     pub(crate) rng: AnyRng,
     pub(crate) n_filter_new: u32,
     pub(crate) n_filter_demobilize: u32,
+    /// digest of the foreign-master table: (records, messages in the first two records)
+    pub(crate) fm: (usize, usize),
 }
 #[derive(Clone, PartialEq, Debug)]
 pub(crate) struct InstanceView {
@@ -522,7 +524,12 @@ pub(crate) fn port_view<L>(p: &TPort<'_, L>) -> PortView {
         rng: p.rng,
         n_filter_new: unsafe { N_FILTER_NEW },
         n_filter_demobilize: unsafe { N_FILTER_DEMOBILIZE },
+        fm: fm_digest(&p.bmca),
     }
+}
+pub(crate) fn fm_digest<A>(b: &Bmca<A>) -> (usize, usize) {
+    let l = crate::bmc::bmca::verif_bmca::fm_list(b);
+    (crate::bmc::foreign_master::verif_fm::n_masters(l), crate::bmc::foreign_master::verif_fm::total_messages(l, 2))
 }
 pub(crate) fn instance_view(s: &PtpInstanceState) -> InstanceView {
     InstanceView {
@@ -541,14 +548,77 @@ pub(crate) fn instance_view(s: &PtpInstanceState) -> InstanceView {
 // action summaries: drain a PortActionIterator into a comparable record (at most MAX_ACTIONS base
 // actions; ForwardTLV actions are counted)
 // ------------------------------------------------------------------------------------------------
-/// a frame found in an action, decoded with the library's own parser
-#[derive(Clone, PartialEq, Debug)]
+/// a frame found in an action: length and the first 64 octets (header + fixed body of every message
+/// statime emits), read back with an independent Clause-13 reader (`spec_frame`).  By the contracts of C04
+/// (header / bodies / framing units) a frame whose messageType is defined, whose messageLength equals the
+/// emitted length and 34 + body size of that type, decodes under the library's own parser.
+#[derive(Clone, Copy, PartialEq, Debug)]
 pub(crate) struct Frame {
     pub(crate) len: usize,
     pub(crate) link_local: bool,
-    pub(crate) decoded: Option<(Header, MessageBody, usize)>, // header, body, TLV suffix length
-    pub(crate) declared_len: usize,
+    pub(crate) head: [u8; 64],
 }
+#[derive(Clone, Copy, PartialEq, Debug)]
+pub(crate) struct SpecFrame {
+    pub(crate) message_type: u8,
+    pub(crate) version: u8,
+    pub(crate) minor_version: u8,
+    pub(crate) declared_len: usize,
+    pub(crate) domain: u8,
+    pub(crate) sdo_id: u16,
+    pub(crate) flags0: u8,
+    pub(crate) flags1: u8,
+    pub(crate) correction: i64,
+    pub(crate) source: PortIdentity,
+    pub(crate) sequence_id: u16,
+    pub(crate) log_interval: i8,
+    /// first Timestamp of the body (octets 34..44): (seconds, nanoseconds)
+    pub(crate) ts: (u64, u32),
+    /// PortIdentity at octets 44..54 (Delay_Resp, Pdelay_Resp, Pdelay_Resp_Follow_Up)
+    pub(crate) body_identity: PortIdentity,
+}
+fn rd16(b: &[u8; 64], o: usize) -> u16 { ((b[o] as u16) << 8) | b[o + 1] as u16 }
+fn rd_identity(b: &[u8; 64], o: usize) -> PortIdentity {
+    PortIdentity {
+        clock_identity: crate::config::ClockIdentity([b[o], b[o + 1], b[o + 2], b[o + 3], b[o + 4], b[o + 5], b[o + 6], b[o + 7]]),
+        port_number: rd16(b, o + 8),
+    }
+}
+/// Clause 13.3 Table 35 (header) and the leading Timestamp / PortIdentity of the body
+pub(crate) fn spec_frame(f: &Frame) -> SpecFrame {
+    let b = &f.head;
+    SpecFrame {
+        message_type: b[0] & 0x0f,
+        version: b[1] & 0x0f,
+        minor_version: b[1] >> 4,
+        declared_len: rd16(b, 2) as usize,
+        domain: b[4],
+        sdo_id: (((b[0] >> 4) as u16) << 8) | b[5] as u16,
+        flags0: b[6],
+        flags1: b[7],
+        correction: (((b[8] as u64) << 56) | ((b[9] as u64) << 48) | ((b[10] as u64) << 40) | ((b[11] as u64) << 32)
+            | ((b[12] as u64) << 24) | ((b[13] as u64) << 16) | ((b[14] as u64) << 8) | (b[15] as u64)) as i64,
+        source: rd_identity(b, 20),
+        sequence_id: rd16(b, 30),
+        log_interval: b[33] as i8,
+        ts: (
+            ((b[34] as u64) << 40) | ((b[35] as u64) << 32) | ((b[36] as u64) << 24) | ((b[37] as u64) << 16) | ((b[38] as u64) << 8) | (b[39] as u64),
+            ((b[40] as u32) << 24) | ((b[41] as u32) << 16) | ((b[42] as u32) << 8) | (b[43] as u32),
+        ),
+        body_identity: rd_identity(b, 44),
+    }
+}
+/// Clause 13: 34-octet header + body size of the message type
+pub(crate) fn spec_frame_size(message_type: u8) -> usize {
+    match message_type { 0x0 | 0x1 | 0x8 => 44, 0x2 | 0x3 | 0x9 | 0xa => 54, 0xb => 64, 0xc => 44, 0xd => 48, _ => 0 }
+}
+/// well-formed fixed-size frame: defined type, declared length == emitted length == size of that type
+pub(crate) fn frame_well_formed(f: &Frame, message_type: u8) -> bool {
+    let s = spec_frame(f);
+    s.message_type == message_type && s.version == 2 && f.len == s.declared_len && f.len == spec_frame_size(message_type)
+        && f.len <= MAX_DATA_LEN
+}
+
 #[derive(Clone, PartialEq, Debug)]
 pub(crate) struct ActionSummary {
     pub(crate) n: u8,
@@ -578,18 +648,14 @@ pub(crate) fn empty_summary() -> ActionSummary {
     }
 }
 
-/// decoding is optional: only units that inspect emitted frames (master, announce) ask for it
-pub(crate) static mut DECODE_FRAMES: bool = false;
-
 fn frame_of(data: &[u8], link_local: bool) -> Frame {
-    let decoded = if unsafe { DECODE_FRAMES } {
-        match Message::deserialize(data) {
-            Ok(m) => Some((m.header, m.body.clone(), m.suffix.wire_size())),
-            Err(_) => None,
-        }
-    } else { None };
-    let declared_len = if data.len() >= 4 { ((data[2] as usize) << 8) | data[3] as usize } else { 0 };
-    Frame { len: data.len(), link_local, decoded, declared_len }
+    let mut head = [0u8; 64];
+    let mut i = 0;
+    while i < 64 {
+        if i < data.len() { head[i] = data[i]; }
+        i += 1;
+    }
+    Frame { len: data.len(), link_local, head }
 }
 
 /// drain up to `max` actions (the iterator yields at most MAX_ACTIONS base actions plus forwarded TLVs).
